@@ -21,8 +21,9 @@ Open Scope Z_scope.
 Theorem C14_source_literals :
   [vnbest_guards_in_order; vnbest_negative_test; vnbest_stop_when_not_below; vnbest_progress_test; vnbest_move;
    vnbest_source_is_heaviest; vnfirst_skip_strict; vnfirst_reject_strict; vnfirst_rollback;
-   vnfirst_stale_p; vnfirst_stops_after_move; parts_load_single_fold; vn_real_order_exact]
-  = [true; true; true; true; true; true; true; true; true; true; true; true; true].
+   vnfirst_stale_p; vnfirst_stops_after_move; parts_load_single_fold; vn_real_order_exact;
+   vnbest_loads_computed_once; vnfirst_loads_computed_once]
+  = [true; true; true; true; true; true; true; true; true; true; true; true; true; true; true].
 Proof. exact eq_refl. Qed.
 Print Assumptions C14_source_literals.
 
